@@ -84,18 +84,18 @@ PROPS["C17"] = {
 }
 
 PROPS["C10"] = {
-    "lean": ["NB.Props.C10"],
+    "lean": ["NB.Props.C10", "NB.Props.C10D"],
     "gens": ["c10"],
     "profiles": ["release"],
     "special": lambda ctx: __import__("c10").special(ctx),
-    "trusted": ["value-level layering: the scalar leaf impls call BigUint/BigInt operators and the digit routines of C01-C03/C07 on digit lists built from the scalar; the model uses Nat/Int arithmetic for those calls",
+    "trusted": ["layering of the + - * / % scalar forms is PROVED, not trusted: NB.Model.ScalarD re-states every leaf on digit vectors through the digit-level add/sub/mul/div/convert/cmp models and NB.Props.C10D proves it equal to the value-level leaf (dUScalarForm_refines, dIScalarForm_refines, dRemAssignScalar_spec); the driver's model column for these forms is the digit-level model. Still value-level (Nat/Int arithmetic for the BigUint operators): scalar shifts, Pow, and the big-by-big items of Sum/Product",
                 "primitive integer semantics: `as` casts wrap modulo 2^N, wrapping_neg, unsigned_abs, `%` on primitives truncates (NB.castTo, NB.wrappingNeg, Int.tmod)",
                 "the in-process form matrix of harness/src/c10.rs (1350 forms, each compared with the ref/ref big-by-big operation on converted operands)"],
     "assumptions": COMMON_ASSUME + ["usize/isize are 64 bits wide (UsizePromotion = u64, IsizePromotion = i64)",
                                     "left shifts and powers whose result would not fit in memory are not exercised (only the documented capacity panics and zero/one bases)"],
     "level": "proof",
-    "technique": "Lean 4 proofs about a value-level model of the scalar leaf impls and promotion layer + rustc-checked in-process form matrix (1350 forms) with 3-way differential run",
-    "level_text": "Leaf scalar semantics proved in Lean: theorems uScalarForm_spec / iScalarForm_spec (every BigUint/BigInt + - * / % form with a primitive scalar of any of the 12 types in any of the three positions, through the promotion cast and the leaf impl's sign/cmp/checked_uabs/digit-count case analysis, equals the canonical big-by-big operation on the losslessly converted scalar, as value or panic class, for EVERY value of the scalar type), uabs_spec (incl. MIN), remAssignScalar_spec (scalar %= BigUint, true also at iN::MIN and 2^(N-1)), shift specs (negative amount panics, BigInt >> rounds toward minus infinity), pow and Sum/Product folds. The val/ref permutations, compound-assignment forwarding and the capacity-driven operand choice do not exist in the immutable model: they are tied ONLY by the in-process form matrix (each of the 1350 rustc-checked forms run on structured operands and compared with the ref/ref operation, with the value-level model and with the Int oracle).",
+    "technique": "Lean 4 proofs about a value-level model of the scalar leaf impls and promotion layer, refined by a digit-level model of the same leaves (+ - * / %) + rustc-checked in-process form matrix (1350 forms) with 3-way differential run",
+    "level_text": "Leaf scalar semantics proved in Lean: theorems uScalarForm_spec / iScalarForm_spec (every BigUint/BigInt + - * / % form with a primitive scalar of any of the 12 types in any of the three positions, through the promotion cast and the leaf impl's sign/cmp/checked_uabs/digit-count case analysis, equals the canonical big-by-big operation on the losslessly converted scalar, as value or panic class, for EVERY value of the scalar type), uabs_spec (incl. MIN), remAssignScalar_spec (scalar %= BigUint, true also at iN::MIN and 2^(N-1)), shift specs (negative amount panics, BigInt >> rounds toward minus infinity), pow and Sum/Product folds. One layer down (NB.Props.C10D): the same leaves on digit vectors (scalar_mul / mul3 with the two-digit operand, div_rem_digit / rem_digit, From + div_rem, the digit-count match of scalar / big, impl_rem_assign_scalar through the digit-level to_T, the BigInt sign/cmp_slice/checked_uabs matches over them) are proved to refine the value-level leaves, so dUScalarForm_spec / dIScalarForm_spec state the same headline for the digit-level model that the driver runs. The val/ref permutations, compound-assignment forwarding and the capacity-driven operand choice do not exist in the immutable model: they are tied ONLY by the in-process form matrix (each of the 1350 rustc-checked forms run on structured operands and compared with the ref/ref operation, with the value-level model and with the Int oracle).",
     "level_note": "Trusted: Lean kernel + {propext, Classical.choice, Quot.sound}; value-level layering over C01-C03/C07 operator theorems; primitive cast/neg/rem semantics; val/ref/assign permutations and buffer reuse covered by differential execution only, strength bounded by the generators.",
 }
 
